@@ -429,4 +429,36 @@ CHECKS = {
                "over histories) + vm_compute correspondence + exact-"
                "Fractions Kirchhoff reference search",
  },
+ "C10": {
+  "text": "What is logic is proved: the running maximum of the cross-"
+          "correlation kernel AS WRITTEN IN THE CURRENT numerics.pyx (slices "
+          "multiplied, strict |c| > |max| tie rule, lag = tau_max - argmax, "
+          "'all' entries stored at tau_max - tau — regenerated each run) "
+          "returns a lag in [0, tau_max], a value equal to the 'all'-mode "
+          "entry at that lag and of maximal absolute value over the lag "
+          "function; reordering the series reorders the result; lags are "
+          "stored exactly while tau_max fits the lag matrix' width read from "
+          "types.py (refuted beyond: 200 -> -56 for int8, a known finding); "
+          "symmetrize_by_absmax is symmetric, lag-antisymmetric and keeps the "
+          "entry of larger absolute value; squared Pearson correlation is "
+          "symmetric and affine invariant, the covariance sign follows "
+          "sign(a c). Correspondence inside Coq: both kernels on the "
+          "standardised binary32 arrays they receive, symmetrize. Everything "
+          "numerical is translation validation against float64 references "
+          "(partial: no Coq statement about log, quantile binning, QR, "
+          "inverse matrices or the C histograms): lagged Pearson, Gaussian "
+          "MI, binned MI, Gaussian information transfer (ity / mit, both lag "
+          "modes), climate similarity classes, surrogate test matrices, "
+          "compiled vs pure-Python at lag 0. knn estimators are not compared "
+          "(random tie-breaking noise inside).",
+  "design_ref": "DESIGN.md section 5, C10",
+  "note": "trusted: translator pyx_coupling.py (ast, fail-closed); numpy / "
+          "scipy references; tolerances 2e-6 (correlations), 1e-4 relative "
+          "(information measures); windows with (nearly) constant or "
+          "collinear series are skipped as undefined",
+  "technique": "Coq proofs over kernels regenerated from the source "
+               "(running-maximum invariant, wrap lemma, symmetrisation, "
+               "Pearson algebra over Qc) + vm_compute correspondence + "
+               "reference-statistic differential check",
+ },
 }
